@@ -92,6 +92,12 @@ def examine_tyrving(case):
         texts = [('text1', '%d.%d' % (c // 100, (c % 100) // 10))]
         if c % 100 == 0:
             texts.append(('text0', '%d' % (c // 100)))
+        if timed and c >= 6000:
+            # from one minute up the same convention in the m:ss.t and Norwegian m.ss.t spellings (and m:ss without decimals)
+            t1 = mss(c)[:-1]
+            texts += [('m:ss.t', t1), ('m.ss.t', t1.replace(':', '.')), ('m:ss,t', t1.replace('.', ','))]
+            if c % 100 == 0:
+                texts.append(('m:ss', t1[:-2]))
         for name, perf in texts:
             _cmp(out, 'hand-timed-convention' if timed else 'equals-table', sig + ['hand'], case, name,
                  call(athlib.tyrving_score, g, age, ev, perf), hw)
